@@ -171,6 +171,25 @@ func mergeAfterHistory(ld, rd *gedcom.Document, c mergeCase) *harness.Failure {
 		}
 		return m.String(), nil
 	}
+	// which right individual a left individual is paired with is only a function of the two
+	// documents when no individual holds two identifiers (the library walks them in the order of a
+	// Go map and "picks the first one that has not already been matched") and no identifier occurs
+	// twice on a side; otherwise two merges of the very same documents may differ, history or not
+	for _, d := range []*gedcom.Document{ld, rd} {
+		seen := map[string]bool{}
+		for _, i := range d.Individuals() {
+			ids := i.UniqueIdentifiers().Strings()
+			if len(ids) > 1 {
+				return nil
+			}
+			for _, id := range ids {
+				if seen[id] {
+					return nil
+				}
+				seen[id] = true
+			}
+		}
+	}
 	// live first: decoding resets the process-wide caches
 	lt, rt := ld.String(), rd.String()
 	live, errL := merge(ld, rd)
@@ -582,7 +601,7 @@ func genCase(rt *rapid.T) mergeCase {
 
 func TestCheckMerge(t *testing.T) {
 	s := harness.NewSub("document-merge-accounting-and-references",
-		"pairs of referentially closed family graphs (<= 7 people, <= 3 families): a base and an independently edited copy (people dropped/added/renamed, facts changed) with the same pointers or completely renumbered, disjoint documents, documents whose pointers clash, an empty side; every person carries a unique marker and two unique fact leaves; thresholds default/0.95/0.3; Jobs 0/1/2/4/16 (the merge matches people with the same machinery as Compare); library call and the query function MergeDocumentsAndIndividuals. For a quarter of the library cases the two documents are afterwards compared, read, edited through the public API and merged again (sequentially): the text must be that of the same two texts decoded from nothing. Oracle: output decodes, every marker exactly once, no two people of one side merged, merged people hold all unique facts and every other line of both originals (an equal node under an equal parent chain), inputs unchanged; every HUSB/WIFE/CHIL of the output resolves to an individual carrying the marker of a person the inputs refer to in that family and role, every input reference is still there, FAMS/FAMC resolve to families; non-trivial = a merged pair and an unmatched person on each side")
+		"pairs of referentially closed family graphs (<= 7 people, <= 3 families; one pair in 60 with 20..45 people per side): a base and an independently edited copy (people dropped/added/renamed, facts changed) with the same pointers or completely renumbered, disjoint documents, documents whose pointers clash, an empty side; every person carries a unique marker and two unique fact leaves; thresholds default/0.95/0.3; Jobs 0/1/2/4/16 (the merge matches people with the same machinery as Compare); library call and the query function MergeDocumentsAndIndividuals. For a quarter of the library cases the two documents are afterwards compared, read, edited through the public API and merged again (sequentially): the text must be that of the same two texts decoded from nothing. Oracle: output decodes, every marker exactly once, no two people of one side merged, merged people hold all unique facts and every other line of both originals (an equal node under an equal parent chain), inputs unchanged; every HUSB/WIFE/CHIL of the output resolves to an individual carrying the marker of a person the inputs refer to in that family and role, every input reference is still there, FAMS/FAMC resolve to families; non-trivial = a merged pair and an unmatched person on each side")
 	s.Rapid(t, harness.Share(harness.Pick(30000, 600000)), 100, func(rt *rapid.T) {
 		c := genCase(rt)
 		fl, oc := check(c)
